@@ -23,26 +23,71 @@ def backfillRows (docs : Docs) (startCas : Nat) : List (String × Row) :=
   sortByCas (docs.filter (fun d => d.2.cas ≥ startCas))
 
 inductive Backfill where
-  | none | from (cas : Nat)
+  | none | from (cas : Nat) | resume
   deriving Repr, Inhabited
 
-/-- `Collection.StartDCPFeed` without resume: backfill events are queued, then the feed is registered (or, for a dump, ends). -/
-def opStartFeed (s : State) (id c : String) (bf : Backfill) (dump keysOnly : Bool) : State × Out :=
+def checkpointKey (pfx id : String) : String := pfx ++ ":" ++ id
+
+/-- `readCheckpoint`: the `last_seq` stored in the checkpoint document, 0 when there is none. -/
+def readCheckpoint (s : State) (c pfx id : String) : Nat :=
+  match getRaw s c (checkpointKey pfx id) with
+  | (.ok, some body, _) =>
+    (match J.parse body with
+     | some (.obj fs) => (match fs.get? "last_seq" with
+        | some (.atom t) => (parseUInt64 t).getD 0
+        | _ => 0)
+     | _ => 0)
+  | _ => 0
+
+def itemCas : FeedItem → Nat
+  | .ev e _ _ => e.cas
+  | _ => 0
+
+/-- The highest CAS among delivered items and the feed's previous mark (`run`: `if event.Cas > feed.lastCas`). -/
+def deliverMark (last : Nat) (items : List FeedItem) : Nat := items.foldl (fun a it => if itemCas it > a then itemCas it else a) last
+
+def checkpointBody (n : Nat) : String := "{\"last_seq\":" ++ toString n ++ "}"
+
+/-- `Collection.StartDCPFeed`: backfill events are queued (from the start CAS, or from the checkpoint + 1 in resume
+    mode), then the feed is registered — or, for a dump, runs to its end at once: everything is delivered and, when a
+    checkpoint prefix is set and something was delivered, the checkpoint is written (an ordinary `Set`). -/
+def opStartFeed (s : State) (id c : String) (bf : Backfill) (dump keysOnly : Bool) (pfx : String := "") : State × Out :=
   match s.coll? c with
   | none => (s, { err := .closed })
   | some x =>
+    let ck := match bf with | .resume => readCheckpoint s c pfx id | _ => 0
+    let start : Option Nat := match bf with | .none => none | .from n => some n | .resume => some (ck + 1)
     let items : List FeedItem :=
-      match bf with
-      | .none => []
-      | .from startCas =>
+      match start with
+      | none => []
+      | some startCas =>
         [.beginBackfill] ++ (backfillRows x.docs startCas).map (fun d => .ev (backfillEvent d.1 d.2 keysOnly) x.id false) ++ [.endBackfill]
-    ({ s with feeds := s.feeds ++ [{ id := id, coll := c, keysOnly := keysOnly, dump := dump, pending := items }] }, {})
+    let f : Feed := { id := id, coll := c, keysOnly := keysOnly, dump := dump, pending := items, ckPrefix := pfx, lastCas := ck }
+    let s1 := { s with feeds := (s.feeds.filter (fun g => g.id ≠ id)) ++ [f] }
+    if dump then
+      let mark := deliverMark ck items
+      let s2 := { s1 with feeds := s1.feeds.map (fun g => if g.id = id then { g with lastCas := mark, changed := mark != ck, stopped := true } else g) }
+      if pfx ≠ "" ∧ mark ≠ ck then ((opSet s2 c (checkpointKey pfx id) 0 false (checkpointBody mark) false).1, {}) else (s2, {})
+    else (s1, {})
 
-/-- Take everything delivered to the feed since the last drain. -/
+/-- Take everything delivered to the feed since the last drain (and advance the feed's delivered mark). -/
 def opDrain (s : State) (id : String) : State × List FeedItem :=
   match s.feeds.find? (fun f => f.id = id) with
   | none => (s, [])
-  | some f => ({ s with feeds := s.feeds.map (fun g => if g.id = id then { g with pending := [] } else g) }, f.pending)
+  | some f =>
+    let mark := if f.dump then f.lastCas else deliverMark f.lastCas f.pending
+    ({ s with feeds := s.feeds.map (fun g => if g.id = id then { g with pending := [], lastCas := mark, changed := g.changed || mark != f.lastCas } else g) }, f.pending)
+
+/-- Closing the feed's terminator: the queue is closed (what is still queued is dropped), the run loop ends, and the
+    checkpoint is written if a prefix is set and the delivered mark moved. -/
+def opStopFeed (s : State) (id : String) : State × Out :=
+  match s.feeds.find? (fun f => f.id = id) with
+  | none => (s, {})
+  | some f =>
+    if f.stopped then (s, {})
+    else
+      let s1 := { s with feeds := s.feeds.map (fun g => if g.id = id then { g with pending := [], stopped := true } else g) }
+      if f.ckPrefix ≠ "" ∧ f.changed then ((opSet s1 f.coll (checkpointKey f.ckPrefix id) 0 false (checkpointBody f.lastCas) false).1, {}) else (s1, {})
 
 /-! ### Expiry sweep (`doExpiration`), with the wall clock as input -/
 
